@@ -78,6 +78,20 @@ class MatEngine:
                 return (T(mv[0]), mv[2], mv[1])
             if p.endswith('utils::matmul') or p.endswith('utils::matmul_blocked'):
                 return self.call_matmul(f, t, ix, leafnames, depth)
+            if p.endswith('utils::vandermonde') and len(t[2]) == 2:
+                return (('M', 'V'), ('len', t[2][0]), strip_casts(t[2][1]))
+            if p.endswith('utils::xtx') and len(t[2]) == 2:
+                mv = self.mat(f, t[2][0], ix, leafnames, depth)
+                if not self._same(ix, f, strip_casts(t[2][1]), mv[1]):
+                    raise MatProblem('xtx(%s, %s): the second argument must be the row count %s' % (show_mat(mv[0]), show(t[2][1]), show(mv[1])), definite=True)
+                return (('Mul', T(mv[0]), mv[0]), mv[2], mv[2])
+            if p.endswith('utils::invert_matrix') and len(t[2]) == 1:
+                mv = self.mat(f, t[2][0], ix, leafnames, depth)
+                if not self._same(ix, f, mv[1], mv[2]):
+                    raise MatProblem('invert_matrix of a %s x %s matrix' % (show(mv[1]), show(mv[2])), definite=True)
+                return (('Inv', mv[0]), mv[1], mv[2])
+            if p.endswith('utils::toeplitz') and len(t[2]) == 1:
+                return (('M', 'Toeplitz'), ('len', t[2][0]), ('len', t[2][0]))
             if p == 'std::vec::from_elem':
                 return self.kernel(f, t, ix, leafnames, depth)
         if k == 'local':
@@ -260,6 +274,18 @@ class MatEngine:
         self._summaries[k] = r
         return r
 
+    def _operand(self, f, x, rows, ix, leafnames, depth):
+        try:
+            return self.mat(f, x, ix, leafnames, depth)
+        except MatProblem:
+            if tag(x) == 'arg':
+                nm = leafnames.get(x) or x[2] or 'arg%d' % x[1]
+                r = strip_casts(rows)
+                if r == ('len', x):
+                    return (('M', nm), r, ('const', 'usize', 1))
+                return (('M', nm), r, ('bin', 'Div', ('len', x), r, 'usize'))
+            raise
+
     def call_matmul(self, f, t, ix, leafnames, depth):
         p = t[1]
         args = t[2]
@@ -276,8 +302,8 @@ class MatEngine:
         mapping = {}
         for i, x in enumerate(args):
             mapping[('arg', i + 1, g.names.get(i + 1))] = x
-        ma = self.mat(f, args[0], ix, leafnames, depth + 1)
-        mb = self.mat(f, args[1], ix, leafnames, depth + 1)
+        ma = self._operand(f, args[0], args[2], ix, leafnames, depth + 1)
+        mb = self._operand(f, args[1], args[3], ix, leafnames, depth + 1)
         # the callee derives cols from is_matrix(a, rows_a): the rows argument must be the row count of the operand
         if not self._same(ix, f, strip_casts(args[2]), ma[1]):
             raise MatProblem('matmul(.., rows_a = %s) but the first operand %s has %s rows' % (show(args[2]), show_mat(ma[0]), show(ma[1])), definite=True)
